@@ -273,29 +273,29 @@ theorem stat_canon (root : Bool) (fs : FS) (p : Path) (hne : p ≠ []) (hc : Can
 
 /-- `unlink p`: fails (not-found only if nothing is there) or erases exactly `p` -/
 inductive Unlinked (fs : FS) (p : Path) (r : Except Err FS) : Prop
-  | failed (e : Err) : r = .error e → (e = .notFound → fget fs p = none) → Unlinked fs p r
+  | failed (e : Err) : r = .error e → (e = .notFound → fget fs p = none) → e ≠ .fuel → Unlinked fs p r
   | erased : r = .ok (ferase fs p) → (fget fs p).isSome = true → Unlinked fs p r
 
 theorem unlink_canon (root : Bool) (fs : FS) (p : Path) (hne : p ≠ []) (hc : Canon fs p) :
     Unlinked fs p (unlink root fs p) := by
   unfold unlink
   cases lstat_canon root fs p hne hc with
-  | access h => rw [h]; exact .failed .access rfl (by intro e; cases e)
-  | absent h hn => rw [h]; exact .failed .notFound rfl (fun _ => hn)
+  | access h => rw [h]; exact .failed .access rfl (by intro e; cases e) (by intro e; cases e)
+  | absent h hn => rw [h]; exact .failed .notFound rfl (fun _ => hn) (by intro e; cases e)
   | here v h hv =>
     rw [h]
     cases v with
-    | dir m => exact .failed .isDir rfl (by intro e; cases e)
+    | dir m => exact .failed .isDir rfl (by intro e; cases e) (by intro e; cases e)
     | file m c =>
       simp only
       by_cases hw : parentW root fs p = true
       · simp only [hw, if_true]; exact .erased rfl (by simp [hv])
-      · simp only [hw]; exact .failed .access rfl (by intro e; cases e)
+      · simp only [hw]; exact .failed .access rfl (by intro e; cases e) (by intro e; cases e)
     | link t =>
       simp only
       by_cases hw : parentW root fs p = true
       · simp only [hw, if_true]; exact .erased rfl (by simp [hv])
-      · simp only [hw]; exact .failed .access rfl (by intro e; cases e)
+      · simp only [hw]; exact .failed .access rfl (by intro e; cases e) (by intro e; cases e)
 
 theorem hasBelow_false {fs : FS} {q k : Path} (h : hasBelow fs q = false) (hp : isPre q k = true) (hne : k ≠ q) :
     fget fs k = none := by
@@ -312,32 +312,32 @@ theorem hasBelow_false {fs : FS} {q k : Path} (h : hasBelow fs q = false) (hp : 
 
 /-- `rmdir p`: fails (not-found only if nothing is there) or erases exactly `p`, which had nothing below it -/
 inductive Rmdired (fs : FS) (p : Path) (r : Except Err FS) : Prop
-  | failed (e : Err) : r = .error e → (e = .notFound → fget fs p = none) → Rmdired fs p r
+  | failed (e : Err) : r = .error e → (e = .notFound → fget fs p = none) → e ≠ .fuel → Rmdired fs p r
   | erased : r = .ok (ferase fs p) → hasBelow fs p = false → Rmdired fs p r
 
 theorem rmdir_canon (root : Bool) (fs : FS) (p : Path) (hne : p ≠ []) (hc : Canon fs p) :
     Rmdired fs p (rmdir root fs p) := by
   unfold rmdir
   cases lstat_canon root fs p hne hc with
-  | access h => rw [h]; exact .failed .access rfl (by intro e; cases e)
-  | absent h hn => rw [h]; exact .failed .notFound rfl (fun _ => hn)
+  | access h => rw [h]; exact .failed .access rfl (by intro e; cases e) (by intro e; cases e)
+  | absent h hn => rw [h]; exact .failed .notFound rfl (fun _ => hn) (by intro e; cases e)
   | here v h hv =>
     rw [h]
     cases v with
-    | file m c => exact .failed .notDir rfl (by intro e; cases e)
-    | link t => exact .failed .notDir rfl (by intro e; cases e)
+    | file m c => exact .failed .notDir rfl (by intro e; cases e) (by intro e; cases e)
+    | link t => exact .failed .notDir rfl (by intro e; cases e) (by intro e; cases e)
     | dir m =>
       simp only
       by_cases hb : hasBelow fs p = true
-      · simp only [hb, if_true]; exact .failed .notEmpty rfl (by intro e; cases e)
+      · simp only [hb, if_true]; exact .failed .notEmpty rfl (by intro e; cases e) (by intro e; cases e)
       · simp only [hb]
         by_cases hw : parentW root fs p = true
         · simp only [hw, if_true]; exact .erased rfl (by simpa using hb)
-        · simp only [hw]; exact .failed .access rfl (by intro e; cases e)
+        · simp only [hw]; exact .failed .access rfl (by intro e; cases e) (by intro e; cases e)
 
 /-- `chmod p` on a path that is not a link: fails, or rewrites exactly `p` keeping its kind -/
 inductive Chmodded (fs : FS) (p : Path) (r : Except Err FS) : Prop
-  | failed (e : Err) : r = .error e → (e = .notFound → fget fs p = none) → Chmodded fs p r
+  | failed (e : Err) : r = .error e → (e = .notFound → fget fs p = none) → e ≠ .fuel → Chmodded fs p r
   | done (v v' : Node) : r = .ok (fset fs p v') → fget fs p = some v → v'.isDir = v.isDir → v'.isLink = false →
       Chmodded fs p r
 
@@ -345,8 +345,8 @@ theorem chmod_canon (root : Bool) (fs : FS) (p : Path) (m : Nat) (hne : p ≠ []
     (hl : isLinkAt fs p = false) : Chmodded fs p (chmod root fs p m) := by
   unfold chmod
   cases stat_canon root fs p hne hc hl with
-  | access h => rw [h]; exact .failed .access rfl (by intro e; cases e)
-  | absent h hn => rw [h]; exact .failed .notFound rfl (fun _ => hn)
+  | access h => rw [h]; exact .failed .access rfl (by intro e; cases e) (by intro e; cases e)
+  | absent h hn => rw [h]; exact .failed .notFound rfl (fun _ => hn) (by intro e; cases e)
   | here v h hv =>
     rw [h]
     cases v with
@@ -394,7 +394,7 @@ theorem nodup_childNames (q : Path) (fs : FS) : (childNames q fs).Nodup := by
 
 /-- `read_dir p` on a path that is not a link: fails, or lists distinct names of recorded children of a directory -/
 inductive Listed (fs : FS) (p : Path) (r : Except Err (List (Name × Bool))) : Prop
-  | failed (e : Err) : r = .error e → (e = .notFound → fget fs p = none) → Listed fs p r
+  | failed (e : Err) : r = .error e → (e = .notFound → fget fs p = none) → e ≠ .fuel → Listed fs p r
   | done (es : List (Name × Bool)) : r = .ok es → isDirAt fs p = true → (es.map Prod.fst).Nodup →
       (∀ x ∈ es.map Prod.fst, (fget fs (p ++ [x])).isSome = true) → Listed fs p r
 
@@ -402,13 +402,13 @@ theorem readDir_canon (root : Bool) (fs : FS) (p : Path) (hne : p ≠ []) (hc : 
     (hl : isLinkAt fs p = false) : Listed fs p (readDir root fs p) := by
   unfold readDir
   cases stat_canon root fs p hne hc hl with
-  | access h => rw [h]; exact .failed .access rfl (by intro e; cases e)
-  | absent h hn => rw [h]; exact .failed .notFound rfl (fun _ => hn)
+  | access h => rw [h]; exact .failed .access rfl (by intro e; cases e) (by intro e; cases e)
+  | absent h hn => rw [h]; exact .failed .notFound rfl (fun _ => hn) (by intro e; cases e)
   | here v h hv =>
     rw [h]
     cases v with
-    | file m' c => exact .failed .notDir rfl (by intro e; cases e)
-    | link t => exact .failed .notDir rfl (by intro e; cases e)
+    | file m' c => exact .failed .notDir rfl (by intro e; cases e) (by intro e; cases e)
+    | link t => exact .failed .notDir rfl (by intro e; cases e) (by intro e; cases e)
     | dir m' =>
       simp only
       by_cases hr : (root || bit m' 256) = true
@@ -422,6 +422,6 @@ theorem readDir_canon (root : Bool) (fs : FS) (p : Path) (hne : p ≠ []) (hc : 
           have : (Prod.fst ∘ fun x => (x, isDirAt fs (p ++ [x]))) = id := by funext x; rfl
           rw [this, List.map_id] at hx
           exact mem_childNames hx
-      · simp only [hr]; exact .failed .access rfl (by intro e; cases e)
+      · simp only [hr]; exact .failed .access rfl (by intro e; cases e) (by intro e; cases e)
 
 end CnbVerif.RmTree
